@@ -4,6 +4,7 @@ A property module (harness/props/cNN.py) supplies:
 
   PROPERTY      "C05"
   DRIVER        "TraitsVerif/Driver/Seq.lean"  (Lean line-protocol driver) or None
+  DRIVERS       optional {case-line prefix: driver} when one property uses several drivers
   PROPS_MODULES ["TraitsVerif.Props.C05"]      (Lean modules holding the theorems)
   TRANSLATORS   ["mutators", ...]              (names in harness/translate/)
   RULE          str: how cases are generated, what makes one non-trivial
@@ -142,8 +143,9 @@ def prove(pm, generated, changed, tier, scratch):
                     f.write(text)
             res["lean_dir"] = lean_dir
         targets = list(pm.PROPS_MODULES)
-        if getattr(pm, "DRIVER", None):
-            targets.append(pm.DRIVER[:-5].replace("/", "."))
+        for drv in [getattr(pm, "DRIVER", None)] + list((getattr(pm, "DRIVERS", {}) or {}).values()):
+            if drv and drv[:-5].replace("/", ".") not in targets:
+                targets.append(drv[:-5].replace("/", "."))
         p = subprocess.run(["lake", "build"] + targets, cwd=lean_dir, capture_output=True, text=True)
         res["build_log"] = (p.stdout + p.stderr)[-6000:]
         build_ok = p.returncode == 0
@@ -388,22 +390,35 @@ def _main(pm, args, tier, seed, prop, t0, scratch):
     disagreements = []
     corr_error = None
     model_out = None
+    # one driver (pm.DRIVER) or several selected by case prefix (pm.DRIVERS = {prefix: driver})
+    drivers = dict(getattr(pm, "DRIVERS", {}) or {})
     if getattr(pm, "DRIVER", None):
-        sel = [(i, c) for i, c in enumerate(cases) if not c.startswith("#")]
-        try:
-            t2 = time.time()
-            outs = run_lean_driver(pm.DRIVER, [c for _, c in sel], lean_dir=pr["lean_dir"] if pr.get("ok") or os.path.isdir(
-                os.path.join(pr["lean_dir"], ".lake")) else LEAN, shards=min(8, args.procs))
-            t_model = time.time() - t2
-            model_out = dict((i, o) for (i, _), o in zip(sel, outs))
-            for i, c in sel:
-                if model_out[i].strip() != impl[i][0].strip():
-                    disagreements.append({"case": c, "impl": impl[i][0], "model": model_out[i]})
-        except Exception as e:
-            corr_error = str(e)
-            t_model = 0.0
-    else:
-        t_model = 0.0
+        drivers.setdefault("", pm.DRIVER)
+    t_model = 0.0
+    n_model = 0
+    if drivers:
+        groups = {}
+        for i, c in enumerate(cases):
+            if c.startswith("#"):
+                continue
+            best = None
+            for pre in drivers:
+                if c.startswith(pre) and (best is None or len(pre) > len(best)):
+                    best = pre
+            if best is not None:
+                groups.setdefault(drivers[best], []).append((i, c))
+        lean_dir = pr["lean_dir"] if pr.get("ok") or os.path.isdir(os.path.join(pr["lean_dir"], ".lake")) else LEAN
+        for drv, sel in groups.items():
+            try:
+                t2 = time.time()
+                outs = run_lean_driver(drv, [c for _, c in sel], lean_dir=lean_dir, shards=min(8, args.procs))
+                t_model += time.time() - t2
+                n_model += len(sel)
+                for (i, c), o in zip(sel, outs):
+                    if o.strip() != impl[i][0].strip():
+                        disagreements.append({"case": c, "impl": impl[i][0], "model": o})
+            except Exception as e:
+                corr_error = str(e)
     corr_ok = not disagreements and corr_error is None
 
     # ---- oracle hits ----------------------------------------------------------
@@ -488,7 +503,7 @@ def _main(pm, args, tier, seed, prop, t0, scratch):
             "evaluations": len(cases), "distinct_nontrivial": len(nontriv),
             "rule": getattr(pm, "RULE", ""),
             "samples": [{"case": c, "impl": impl[i][0]} for i, c in list(enumerate(cases))[:: max(1, len(cases) // 6)][:6]],
-            "traces_validated_against_impl": len(cases) if getattr(pm, "DRIVER", None) and corr_error is None else 0,
+            "traces_validated_against_impl": n_model if corr_error is None else 0,
             "correspondence_disagreements": len(disagreements),
             "correspondence_error": corr_error,
             "oracle_hits": len(hits), "known_findings_hit": {str(k): n for k, (_, n) in known_lines.items()},
